@@ -376,6 +376,7 @@ func (s *Syncer) LoadOnce(ctx context.Context, env *lmdb.Env, instance string, u
 
 	schemaTracksChanges := s.lc.SchemaTracksChanges
 
+	verifhook.Yield("load.beforeTxn", s.instanceID())
 	err = env.Update(func(txn *lmdb.Txn) error {
 		ts := time.Now()
 		ts = verifhook.Now("load.ts", ts)
